@@ -155,7 +155,11 @@ class Gen:
                 self.tscripts[i * 10 + 1] = gen_tscript(rng, in_start=rng.random() < 0.6)
             if g == "SgDeep":
                 pass
-            return self.add(dict(name=self.name(), kind=how, g=g, args=self.pick(1), p=p, q=q, id=i))
+            arg = self.pick(1)
+            if how != "inline" and self.is_ref(arg[0].lstrip("~")) and not allow.get("nested_over_ref", False):
+                # a reference crossing a nested boundary is C13/C09 territory (known finding F3); keep it out of the others
+                how = "inline"
+            return self.add(dict(name=self.name(), kind=how, g=g, args=arg, p=p, q=q, id=i))
         if allow.get("feedback", True) and len(self.open_fb) < 2:
             n = dict(name=self.name(), kind="feedback", id=0)
             if rng.random() < 0.6:
@@ -197,3 +201,70 @@ class Gen:
 def gen_program(seed, size=None, allow=None):
     rng = random.Random(seed)
     return Gen(rng, size=size, allow=allow).build()
+
+
+def random_order(prog, rng):
+    """a random admissible permutation of the wiring statements (a statement may appear once its input ports exist)"""
+    import dataflow
+    deps = dataflow.stmt_deps(prog)
+    n = len(deps)
+    done = set()
+    order = []
+    remaining = set(range(n))
+    while remaining:
+        ready = sorted(i for i in remaining if deps[i] <= done)
+        if not ready:
+            raise ValueError("statement dependencies are cyclic")
+        # bias: sometimes strictly reversed-ready, sometimes random
+        i = rng.choice(ready) if rng.random() < 0.8 else ready[-1]
+        order.append(i)
+        done.add(i)
+        remaining.discard(i)
+    return order
+
+
+def add_delayed(prog, rng, count=1):
+    """wire some consumers before their producers through delayed_binding (construction order only)"""
+    for _ in range(count):
+        cands = []
+        names = {n["name"]: n for n in prog["nodes"]}
+        for n in prog["nodes"]:
+            if n["kind"] in ("feedback", "delayed"):
+                continue
+            for j, a in enumerate(n.get("args", [])):
+                b = a.lstrip("~")
+                if names[b]["kind"] not in ("feedback", "delayed"):
+                    cands.append((n, j))
+        if not cands:
+            return prog
+        n, j = rng.choice(cands)
+        a = n["args"][j]
+        d = "d%d" % (sum(1 for x in prog["nodes"] if x["kind"] == "delayed") + 1)
+        prog["nodes"].insert(0, dict(name=d, kind="delayed", id=0))
+        n["args"][j] = ("~" if a.startswith("~") else "") + d
+        prog.setdefault("binds", []).append((d, a.lstrip("~")))
+    return prog
+
+
+def make_cyclic(prog, rng):
+    """close a dependency cycle through delayed_binding (no feedback): must be rejected when the graph is built"""
+    names = {n["name"]: n for n in prog["nodes"]}
+    chains = []
+    for b in prog["nodes"]:
+        if b["kind"] in ("feedback", "delayed") or not b.get("args"):
+            continue
+        for a_name in b["args"]:
+            a = names[a_name.lstrip("~")]
+            if a["kind"] in ("feedback", "delayed", "ite") or not a.get("args"):
+                continue
+            if names[a["args"][0].lstrip("~")]["kind"] in ("feedback", "delayed"):
+                continue
+            chains.append((a, b))
+    if not chains:
+        return None
+    a, b = rng.choice(chains)
+    d = "dz"
+    prog["nodes"].insert(0, dict(name=d, kind="delayed", id=0))
+    a["args"][0] = d            # A now reads (through the placeholder) ...
+    prog.setdefault("binds", []).append((d, b["name"]))   # ... B, which reads A
+    return prog
